@@ -85,6 +85,30 @@ PROPS = {
         "assumptions": ["equality with the manual swap-then-deposit run is validated by the twin-deployment stream (mon_twin_c14), not proved; all-or-nothing is C20"],
     },
 
+    "C17": {
+        "module": "MantraDex.Properties.C17", "ns": "MantraDex.C17",
+        "theorems": ["swap_disabled_direct", "performSwap_status", "route_requires_enabled", "deposit_disabled", "withdraw_disabled",
+                     "single_asset_blocked_by_swap_switch", "toggle_only_named_pool", "reenable_restores", "new_pool_all_enabled"],
+        "streams": {"pm_hist": (80, 4000), "twin": (60, 3000)},
+        "what": "swaps disabled: direct swap rejected, any route through the pool rejected as a whole, a single-asset deposit's whole transaction "
+                "rejected (through the runtime: its inner swap is a reply-on-success sub-message); deposits disabled: every deposit shape rejected; "
+                "withdrawals disabled: rejected; swaps never change any switch; a toggle touches only the named pool and only its switches; "
+                "re-enabling restores the pool exactly; new pools start fully enabled",
+        "assumptions": ["non-interference on the remaining operations is validated by the twin-deployment stream (mon_twin_c17), not proved"],
+    },
+    "C20": {
+        "module": "MantraDex.Properties.C20", "ns": "MantraDex.C20",
+        "theorems": ["step_error_restores", "failing_submsg_aborts", "pm_execute_reply_modes", "pm_reply_shape", "closeFarms_reply_modes",
+                     "fm_execute_reply_modes", "fm_reply_no_effect", "failed_refund_tolerated"],
+        "streams": {"faults": (40, 2000), "pm_hist": (40, 2000), "fm_hist": (40, 2000)},
+        "what": "contracts' part: every sub-message any pool-manager / farm-manager handler can emit is reply-never, except the single-asset deposit's "
+                "inner swap (success, id 1) and close-farm refunds (error, bank send only); the farm manager's reply changes nothing, the pool "
+                "manager's reply only continues the deposit; hence in the runtime a failing sub-message aborts its parent (failing_submsg_aborts) "
+                "unless it is a close-farm refund, whose failure is tolerated with everything else as in the fault-free run (failed_refund_tolerated)",
+        "assumptions": ["the CosmWasm runtime semantics (rollback scopes, reply modes) are modelled after cw-multi-test/wasmd and trusted; "
+                        "validated by the fault-enumeration stream: every operation re-run with the k-th bank call failing, snapshot equality after each rejection"],
+    },
+
     "C03": {
         "module": "MantraDex.Properties.C03", "ns": "MantraDex.C03",
         "theorems": ["cp_gross_formula", "cp_swap_k_mono", "performSwap_k_mono", "cp_round_trip_no_profit", "ss_swap_D_witness"],
